@@ -15,7 +15,7 @@ EXPLANATION = ('Linear complex maps: the kernel A[in->out] of the forward routin
                'differentiates the forward routine\'s symbolic output with respect to every input symbol (polynomial derivative, chain rule '
                'through phasors and exp/log/atan/sqrt atoms) and the backprop result must equal J^T ybar in the library\'s convention '
                '(d/dRe + i d/dIm for complex inputs).')
-BOUNDS = {'quick': 'shapes in {2,3}^2 (input/output/mask sizes unequal and non-square included); softmax with 2 and 3 classes; cost functions on 3-4 samples; DM 4x4 grids, 2x2 actuators',
+BOUNDS = {'quick': 'shapes in {2,3}^2 (input/output/mask sizes unequal and non-square included); softmax with 2 and 3 classes; cost functions on 3-4 samples; DM 4x4 grids, 2x2 actuators; focal-plane-mask round trip with a symbolic (sx, sy) window shift on 2 shapes',
           'thorough': 'shapes up to 4x4; softmax up to 4 classes; DM up to 6x6 with shifts, pad and crop'}
 OUTSIDE = 'DM with rotation (spline warp) or upsample != 1; optimizers.py; czt backprop (raises by design)'
 NDERIVED = 60
